@@ -129,6 +129,14 @@ def write_tree(root, tree):
                 json.dump({"shared": {"HED": {"x": "Zzqdecoy", "y": "Zzqdecoy2"}}}, f)
             with open(os.path.join(p, "sub-01_task-A_events.tsv"), "w") as f:
                 f.write("onset\tHED\n1.0\tZzqdecoyrow\n")
+            # the same below the root: an excluded name at any depth takes no part
+            sub = "sub-01/ses-1" if tree["ses"] else "sub-01"
+            p = os.path.join(root, sub, d)
+            os.makedirs(p, exist_ok=True)
+            with open(os.path.join(p, "sub-01_task-A_events.json"), "w") as f:
+                json.dump({"shared": {"HED": {"x": "Zzqnested", "y": "Zzqnested2"}}}, f)
+            with open(os.path.join(p, "sub-01_task-A_desc-copy_events.tsv"), "w") as f:
+                f.write("onset\tHED\n1.0\tZzqnestedrow\n")
     return contents
 
 
@@ -176,7 +184,7 @@ def check_tree(env, rec, root, tree, ti):
     # excluded directories take no part
     for p in list(group.datafile_dict) + list(group.sidecar_dict):
         relp = os.path.relpath(p, os.path.realpath(root))
-        if relp.split("/")[0] in ("derivatives", "code"):
+        if any(part in ("derivatives", "code") for part in relp.split("/")[:-1]):
             rec.violation("C16:excluded-directory-file-used", file=relp, **where)
             return
     # 2. dataset issues == union of (each sidecar with its own chain) and (each events file with its merged sidecar)
